@@ -30,6 +30,9 @@ ASSUMPTIONS = ['alpha, shift rational (every float is); phases multiples of 1/L 
                'Gaussian-integer input data; comparison tolerance 1e-9*(1+max|model|)']
 RULE = ('random dft2/idft2/round-trip cases: shapes 1..7 (odd, even, 1, non-square), alpha_r, alpha_c = p/q independent, '
         'shifts k/4 or k/2, offsets in [-6,6], both flags, out in {None, complex buffer, f itself, float buffer, wrong shape} (dft2 and idft2); '
+        'inputs scaled by 1e-13..1e12 (scale covariance), ndarray subclasses (np.matrix, MaskedArray without masked entries, a metadata '
+        'subclass) and Fortran / strided layouts, np.bool_ / int flags, caller input unchanged; near-tie histories (shift or alpha '
+        'differing past the 6th decimal between calls); kernels above 2**20 elements with output lengths not divisible by 2, 3, 4; '
         'every real input dtype (int64/32/8, uint8, bool, float64/32/16) through dft2 and idft2; structured inputs: a dense block in a grid of zeros at every (grid length <= 6/7, start, end) per axis, single lit samples, zero '
         'rows/columns in the middle, real, constant, hermitian, sparse and all-zero data; large inputs (sides 31..33, 63..67, 101, 127..129; full-period FFT-equivalent calls and general ones; oracle only: '
         'vectorised defining sum with exact integer phase reduction); histories of 2-4 dft2/idft2 calls on one (input shape, output shape) pair alternating shifted and unshifted calls, each decided as if made first; '
@@ -200,9 +203,59 @@ def gen_history(rng, maxn):
         return c
 
 
+def gen_neartie(rng, maxn):
+    """2-4 calls with identical shapes, offsets and flags whose shift (or alpha) differs from an earlier call's only past
+    the 6th decimal: each call must still be ITS OWN defining sum (memo keys that quantise an argument are a class)"""
+    m, n = rng.randint(2, maxn), rng.randint(2, maxn)
+    M, N = (m, n) if rng.random() < 0.4 else (rng.randint(2, maxn), rng.randint(2, maxn))
+    ar, ac = rnd_alpha(rng, m), rnd_alpha(rng, n)
+    fn = rng.choice(['dft2', 'dft2', 'idft2'])
+    base = {'fn': fn, 'unitary': rng.random() < 0.5,
+            'shr': str(Fraction(rng.choice([-5, -3, -1, 0, 1, 2, 3]), rng.choice([1, 2, 4]))),
+            'shc': str(Fraction(rng.choice([-5, -3, -1, 0, 1, 2, 3]), rng.choice([1, 2, 4])))}
+    if fn == 'dft2':
+        base['offr'], base['offc'] = rng.randint(-3, 3), rng.randint(-3, 3)
+    what = rng.choice(['shift', 'shift', 'alpha'])
+    f = rnd_data(rng, m, n)
+    calls = []
+    for i in range(rng.randint(2, 4)):
+        cl = dict(base, f=f if rng.random() < 0.6 else rnd_data(rng, m, n))
+        if i:
+            eps = Fraction(rng.choice([1, 2, 4, 7, -3, -4]), 10 ** 7)        # 1e-7 .. 7e-7
+            if what == 'shift':
+                cl['shr'] = str(Fraction(base['shr']) + eps)
+                if rng.random() < 0.5:
+                    cl['shc'] = str(Fraction(base['shc']) - eps)
+            else:
+                cl['ar'] = str(ar * (1 + eps))
+        calls.append(cl)
+    return {'op': 'hist', 'ar': str(ar), 'ac': str(ac), 'M': M, 'N': N, 'calls': calls, 'neartie': what}
+
+
 BIG_ROWS = [63, 65, 67, 101, 127]
 BIG_COLS = [64, 65, 66]
 DECADES = [31, 32, 33, 63, 64, 65, 66, 67, 127, 128, 129]
+
+
+def gen_huge(rng, k):
+    """transforms whose row (or column) kernel exceeds 2**20 elements, with an output length not divisible by 2, 3, 4
+    (blocked / chunked paths behind size thresholds are a class): oracle only"""
+    big_in = rng.choice([1100, 1040, 1200, 1061])
+    big_out = rng.choice([1009, 2003, 3001, 1511])        # primes: not divisible by any block count
+    small_in, small_out = rng.randint(1, 4), rng.randint(1, 5)
+    fn = rng.choice(['dft2', 'dft2', 'idft2'])
+    c = {'op': 'large', 'fn': fn, 'seed': rng.randrange(10 ** 6), 'shr': str(Fraction(rng.randint(-8, 8), 4)),
+         'shc': str(Fraction(rng.randint(-8, 8), 4)), 'offr': 0, 'offc': 0, 'unitary': rng.random() < 0.5, 'forms': 'tuple',
+         'out': rng.choice(['none', 'complex'])}
+    if k % 2 == 0:
+        c.update(m=big_in, n=small_in, M=big_out, N=small_out)
+    else:
+        c.update(m=small_in, n=big_in, M=small_out, N=big_out)
+    c['ar'] = str(Fraction(1, c['M'])) if rng.random() < 0.5 else str(Fraction(rng.choice([1, 2, 3]), c['m'] + rng.randint(0, 9)))
+    c['ac'] = str(Fraction(1, c['N'])) if rng.random() < 0.5 else str(Fraction(rng.choice([1, 2, 3]), c['n'] + rng.randint(0, 9)))
+    if fn == 'dft2' and rng.random() < 0.5:
+        c['offr'], c['offc'] = rng.randint(-9, 9), rng.randint(-9, 9)
+    return c
 
 
 def gen_large(rng, k):
@@ -251,6 +304,10 @@ def generate(rng, tier):
         yield c
     for _ in range(40 if tier == 'quick' else 400):
         yield gen_history(rng, maxn)
+    for _ in range(25 if tier == 'quick' else 250):
+        yield gen_neartie(rng, maxn)
+    for k in range(4 if tier == 'quick' else 16):
+        yield gen_huge(rng, k)
     for c in gen_blocks(rng, tier):
         yield c
     for c in gen_dtypes(rng, tier, maxn):
@@ -282,6 +339,14 @@ def generate(rng, tier):
         else:
             c = {'op': 'roundtrip', 'f': rnd_data(rng, m, n), 'ar': str(Fraction(1, m)), 'ac': str(Fraction(1, n)),
                  'M': m, 'N': n, 'unitary': rng.random() < 0.5}
+        if c['op'] in ('dft2', 'idft2') and c.get('out') != 'self':
+            t2 = rng.random()
+            if t2 < 0.12:               # amplitudes scaled over many decades: the transform is linear (scale covariance)
+                c['scale'] = rng.choice(['1e-13', '1e-11', '1e-9', '1e-6', '1e7', '1e12'])
+            elif t2 < 0.24:             # ndarray subclasses carrying the same data
+                c['container'] = rng.choice(['matrix', 'masked', 'subclass', 'fortran', 'strided'])
+            if rng.random() < 0.15:     # truthy / falsy flags that are not the bool singletons
+                c['flag'] = rng.choice(['np', 'int'])
         if rng.random() < 0.3:          # structured inputs (data-dependent fast paths are a class)
             c['data'], c['f'] = structured_data(rng, m, n)
         if c['op'] in ('dft2', 'idft2') and c.get('out') != 'self' and rng.random() < 0.25:
@@ -305,9 +370,13 @@ def classify(c):
                   (f'1/{c["m"]}', f'1/{c["n"]}', c['m'], c['n'], '0', '0', 0, 0)
         return 'large/' + c['fn'] + ('/full-period' if fftlike else '/general') + ('/unitary' if c['unitary'] else '')
     if c['op'] == 'hist':
+        if c.get('neartie'):
+            return 'hist/near-tie-' + c['neartie']
         return 'hist/' + '-'.join(cl['fn'] + ('*' if Fraction(cl['shr']) != 0 or Fraction(cl['shc']) != 0 else '') for cl in c['calls'])
     return (c['op'] + ('/' + c.get('out', 'none') if c['op'] in ('dft2', 'idft2') else '') + ('/unitary' if c.get('unitary') else '')
-            + ('/' + c['forms'] if c.get('forms') else '') + ('/data:' + c['data'] if c.get('data') else ''))
+            + ('/' + c['forms'] if c.get('forms') else '') + ('/data:' + c['data'] if c.get('data') else '')
+            + ('/scaled' if c.get('scale') else '') + ('/' + c['container'] if c.get('container') else '')
+            + ('/flag:' + c['flag'] if c.get('flag') else ''))
 
 
 def nontrivial(c):
@@ -412,12 +481,15 @@ def fresh_state():
                         cc()
                     except Exception:
                         pass
+            for k, v in list(vars(mod).items()):          # module-level memo tables
+                if isinstance(v, dict) and 'cache' in k.lower():
+                    v.clear()
 
 
 def run_history(lentil, c):
-    alpha = (float(Fraction(c['ar'])), float(Fraction(c['ac'])))
     out = []
     for cl in c['calls']:
+        alpha = (float(Fraction(cl.get('ar', c['ar']))), float(Fraction(cl.get('ac', c['ac']))))
         f = to_np(cl['f'])
         shift = (float(Fraction(cl['shr'])), float(Fraction(cl['shc'])))
         try:
@@ -468,10 +540,18 @@ def run_large(lentil, c):
                 return {'np': Big(lentil.fourier.idft2(f, alpha, unitary=c['unitary']))}
             F = lentil.fourier.dft2(f, alpha, unitary=c['unitary'])
             return {'np': Big(lentil.fourier.idft2(F, alpha, unitary=c['unitary'])), 'fwd': Big(F)}
+        out = None
+        if c.get('out') == 'complex':
+            out = np.full((c['M'], c['N']), 7.0 - 3.0j, dtype=complex)          # stale contents
         if c['fn'] == 'dft2':
-            return {'np': Big(lentil.fourier.dft2(f, alpha, shape=(c['M'], c['N']), shift=shift, offset=(c['offr'], c['offc']),
-                                                  unitary=c['unitary']))}
-        return {'np': Big(lentil.fourier.idft2(f, alpha, shape=(c['M'], c['N']), shift=shift, unitary=c['unitary']))}
+            F = lentil.fourier.dft2(f, alpha, shape=(c['M'], c['N']), shift=shift, offset=(c['offr'], c['offc']),
+                                    unitary=c['unitary'], out=out)
+        else:
+            F = lentil.fourier.idft2(f, alpha, shape=(c['M'], c['N']), shift=shift, unitary=c['unitary'], out=out)
+        res = {'np': Big(F)}
+        if out is not None and (F is not out):
+            res['not_buffer'] = True
+        return res
     except Exception as e:
         return {'err': type(e).__name__}
 
@@ -480,6 +560,12 @@ def kernel_matrix(alpha, n, off, shift, N):
     """exp(-2 pi i alpha (x - n//2 + off)(u - N//2 - shift)) as an (n x N) matrix, the phase reduced EXACTLY modulo one
     turn in integer arithmetic before the floating-point exponential"""
     den = alpha.denominator * shift.denominator
+    bound = abs(alpha.numerator) * (n + abs(off) + 1) * ((N + 1) * shift.denominator + abs(shift.numerator))
+    if bound < 2 ** 62 and den < 2 ** 62:          # exact in int64
+        X = np.arange(n, dtype=np.int64) - n // 2 + off
+        U = (np.arange(N, dtype=np.int64) - N // 2) * shift.denominator - shift.numerator
+        K = (alpha.numerator * np.outer(X, U)) % den
+        return np.exp(-2j * np.pi * (K.astype(np.float64) / float(den)))
     X = np.arange(n, dtype=object) - n // 2 + off
     U = (np.arange(N, dtype=object) - N // 2) * shift.denominator - shift.numerator
     K = (alpha.numerator * np.outer(X, U)) % den
@@ -500,6 +586,8 @@ def oracle_large(c, impl):
     ar, ac = Fraction(c['ar']), Fraction(c['ac'])
     shr, shc = Fraction(c['shr']), Fraction(c['shc'])
     got = impl['np'].a
+    if impl.get('not_buffer'):
+        return f'{c["fn"]}(..., out=buf) on a {c["m"]}x{c["n"]} input did not return the supplied buffer'
     where = f'{c["m"]}x{c["n"]} input -> {c["M"]}x{c["N"]} output, alpha=({c["ar"]}, {c["ac"]}), unitary={c["unitary"]}'
     if c['fn'] == 'dft2':
         exp = defining_sum_np(f, ar, ac, c['M'], c['N'], shr, shc, c['offr'], c['offc'], c['unitary'])
@@ -534,6 +622,8 @@ def call_forms(c, f):
     offset = (c.get('offr', 0), c.get('offc', 0))
     alpha = (ar, ac)
     form = c.get('forms', 'tuple')
+    if eff_scale(c) != 1.0:
+        f = f * eff_scale(c)
     if form == 'scalar':
         if c['ar'] == c['ac']:
             alpha = ar
@@ -548,7 +638,48 @@ def call_forms(c, f):
         f = np.array([[int(v[0]) for v in row] for row in c['f']], dtype=np.int64)
     elif form.startswith('dtype:'):          # a real-valued input array of the given dtype
         f = np.array([[v[0] for v in row] for row in c['f']]).astype(getattr(np, form[6:]))
+    cont = c.get('container')
+    if cont and isinstance(f, np.ndarray):
+        if cont == 'matrix':
+            f = np.matrix(f)
+        elif cont == 'masked':
+            f = np.ma.MaskedArray(f, mask=np.zeros(f.shape, dtype=bool))
+        elif cont == 'subclass':
+            f = f.view(MetaArray)
+            f.info = {'unit': 'V/m'}
+        elif cont == 'fortran':
+            f = np.asfortranarray(f)
+        elif cont == 'strided':
+            big = np.zeros((2 * f.shape[0], 3 * f.shape[1]), dtype=f.dtype)
+            big[::2, ::3] = f
+            f = big[::2, ::3]
     return f, alpha, shape, shift, offset
+
+
+class MetaArray(np.ndarray):
+    """an ndarray subclass that carries metadata"""
+    def __array_finalize__(self, obj):
+        self.info = getattr(obj, 'info', None)
+
+
+def flag_form(c):
+    u = bool(c['unitary'])
+    if c.get('flag') == 'np':
+        return np.bool_(u)
+    if c.get('flag') == 'int':
+        return int(u)
+    return u
+
+
+def eff_scale(c):
+    """the factor applied to the input data (only for the argument forms that keep a floating-point input)"""
+    if c.get('scale') and c.get('forms', 'tuple') in ('tuple', 'scalar', 'ndarray', 'list_input'):
+        return float(c['scale'])
+    return 1.0
+
+
+def unscale(c, F):
+    return np.asarray(F) / eff_scale(c) if eff_scale(c) != 1.0 else np.asarray(F)
 
 
 def run_impl(c):
@@ -564,21 +695,27 @@ def run_impl(c):
         if c['op'] == 'dft2':
             out = make_out(c, f)
             fa, alpha, shape, shift, offset = call_forms(c, f)
-            F = lentil.fourier.dft2(fa, alpha, shape=shape, shift=shift, offset=offset, unitary=c['unitary'], out=out)
-            res = {'arr': np.asarray(F).tolist(), 'same_buffer': (out is not None and F is out)}
+            keep = np.array(fa, copy=True) if isinstance(fa, np.ndarray) and out is not fa else None
+            F = lentil.fourier.dft2(fa, alpha, shape=shape, shift=shift, offset=offset, unitary=flag_form(c), out=out)
+            res = {'arr': unscale(c, F).tolist(), 'same_buffer': (out is not None and F is out)}
             if out is not None and not np.array_equal(np.asarray(out), np.asarray(F)):
                 res['out_differs'] = True
+            if keep is not None and not np.array_equal(keep, np.asarray(fa)):
+                res['input_modified'] = True
             return res
         if c['op'] == 'idft2':
             out = make_out(c, f)
             fa, alpha, shape, shift, _ = call_forms(c, f)
-            F = lentil.fourier.idft2(fa, alpha, shape=shape, shift=shift, unitary=c['unitary'], out=out)
-            res = {'arr': np.asarray(F).tolist(), 'same_buffer': (out is not None and F is out)}
+            keep = np.array(fa, copy=True) if isinstance(fa, np.ndarray) else None
+            F = lentil.fourier.idft2(fa, alpha, shape=shape, shift=shift, unitary=flag_form(c), out=out)
+            res = {'arr': unscale(c, F).tolist(), 'same_buffer': (out is not None and F is out)}
+            if keep is not None and not np.array_equal(keep, np.asarray(fa)):
+                res['input_modified'] = True
             if out is not None:
                 if not np.array_equal(np.asarray(out), np.asarray(F)):
                     res['out_differs'] = True
                 fresh = lentil.fourier.idft2(fa, alpha, shape=shape, shift=shift, unitary=c['unitary'])
-                res['fresh'] = np.asarray(fresh).tolist()
+                res['fresh'] = unscale(c, fresh).tolist()
             return res
         if c['op'] == 'roundtrip':
             F = lentil.fourier.dft2(f, alpha, unitary=c['unitary'])
@@ -641,7 +778,7 @@ def oracle(c, impl):
         return oracle_large(c, impl)
     if c['op'] == 'hist':
         for k, (cl, r) in enumerate(zip(c['calls'], impl['calls'])):
-            one = {'op': cl['fn'], 'f': cl['f'], 'ar': c['ar'], 'ac': c['ac'], 'M': c['M'], 'N': c['N'],
+            one = {'op': cl['fn'], 'f': cl['f'], 'ar': cl.get('ar', c['ar']), 'ac': cl.get('ac', c['ac']), 'M': c['M'], 'N': c['N'],
                    'shr': cl['shr'], 'shc': cl['shc'], 'offr': cl.get('offr', 0), 'offc': cl.get('offc', 0),
                    'unitary': cl['unitary'], 'out': 'none'}
             msg = oracle(one, r)
@@ -652,6 +789,8 @@ def oracle(c, impl):
         return None
     f = c['f']
     ar, ac = Fraction(c['ar']), Fraction(c['ac'])
+    if impl.get('input_modified'):
+        return f'{c["op"]} modified the caller\'s input array'
     if c['op'] == 'dft2':
         o = c['out']
         if o in ('float', 'complex64'):
